@@ -101,6 +101,7 @@ type Thread struct {
 	wake     chan struct{}
 	state    int
 	pend     pending
+	pendLoc  string
 	spinMark uint64
 	abort    bool
 	dormant  bool // AfterFunc thread whose timer was stopped
@@ -190,6 +191,7 @@ type Result struct {
 	TimersLeft   int   // active timers at the end
 	Now          int64 // virtual nanoseconds since execution start
 	Diverged     string
+	StepTrace    []string
 }
 
 // Options configures one execution.
@@ -200,6 +202,9 @@ type Options struct {
 	// DelayBounded makes every departure from the canonical schedule cost one deviation, also when the
 	// running thread is blocked (delay bounding); default is preemption bounding.
 	DelayBounded bool
+	// StepTrace records, for every scheduling decision, which thread went on with which operation and
+	// where in the instrumented code it stands (diagnosis of a replayed schedule; slow).
+	StepTrace bool
 }
 
 // Exec is one execution.
@@ -215,11 +220,12 @@ type Exec struct {
 	prefix  []int
 	choices []Choice
 
-	steps    int
-	horizon  int
-	progress uint64
-	seq      uint64
-	switches int
+	steps     int
+	horizon   int
+	stepTrace bool
+	progress  uint64
+	seq       uint64
+	switches  int
 
 	now      int64
 	maxTime  int64
@@ -466,7 +472,13 @@ func (x *Exec) point(p pending) {
 		return
 	}
 	t.pend = p
+	if x.stepTrace {
+		t.pendLoc = callSite()
+	}
 	next := x.schedule(t, true)
+	if x.stepTrace && next != nil {
+		x.res.StepTrace = append(x.res.StepTrace, fmt.Sprintf("%-14s %-12s %s", next.name, next.pend.kind.String(), next.pendLoc))
+	}
 	if next == t {
 		if p.kind != OpSpin && p.kind != OpYield {
 			x.progress++
@@ -491,6 +503,31 @@ func (x *Exec) point(p pending) {
 		x.progress++
 	}
 	t.pend.ready = nil
+}
+
+// callSite names the innermost frames of the caller that are not part of the scheduler or its shims.
+func callSite() string {
+	pcs := make([]uintptr, 24)
+	n := runtime.Callers(3, pcs)
+	fr := runtime.CallersFrames(pcs[:n])
+	var out []string
+	for {
+		f, more := fr.Next()
+		if !strings.Contains(f.File, "/engine/vrt/") && f.Function != "" {
+			fn := f.Function
+			if i := strings.LastIndex(fn, "/"); i >= 0 {
+				fn = fn[i+1:]
+			}
+			out = append(out, fmt.Sprintf("%s:%d", fn, f.Line))
+			if len(out) == 3 {
+				break
+			}
+		}
+		if !more {
+			break
+		}
+	}
+	return strings.Join(out, " < ")
 }
 
 // Point is a scheduling point with an optional readiness predicate.
@@ -894,6 +931,7 @@ func Run(o Options, prefix []int, body func()) *Result {
 		prefix:     prefix,
 		choices:    make([]Choice, 0, 64),
 		horizon:    o.Horizon,
+		stepTrace:  o.StepTrace,
 		maxTime:    o.MaxTime,
 		selectFree: o.SelectFree,
 	}
